@@ -1081,6 +1081,68 @@ impl<'a> Exec<'a> {
 
     // -- quiescent check ------------------------------------------------------------------------
 
+    /// The watchdog fired for follower `behind`. Wall-clock time alone never decides; but if another
+    /// follower of the same leader receives LAG_STEPS further writes, one after the other and each one
+    /// awaited, while `behind` - still running as a follower and answering - has not even received the
+    /// marker written before all of them, then `behind` is LAG_STEPS+1 forwarded writes behind a peer fed
+    /// by the same loop: it is not being sent the leader's writes (bounded progress in logical steps).
+    /// Without a second follower there is no such clock and the verdict stays inconclusive.
+    fn lag_probe(&mut self, behind: usize, api: &CloneableWbApi, marker: &Value) -> Verdict {
+        const LAG_STEPS: u64 = 16;
+        const LAG_KEY: &str = "verif-marker/lag";
+        let inconclusive = |why: String| Verdict::Inconclusive(format!("watchdog: marker not seen on follower {behind} within {WATCHDOG:?}; {why}"));
+        if self.c12_mode {
+            // convergence is C11's subject; C12 judges what a promoted follower keeps of what it had received
+            return inconclusive("C12 does not judge lag".into());
+        }
+        let Some(reference) = (0..self.followers.len()).find(|j| *j != behind && self.followers[*j].is_some()) else {
+            return inconclusive("no second follower to measure the lag against".into());
+        };
+        let rapi = self.followers[reference].as_ref().map(|f| f.server.api.clone()).expect("checked");
+        let bapi = self.followers[behind].as_ref().map(|f| f.server.api.clone()).expect("checked");
+        for n in 1..=LAG_STEPS {
+            let v = json!({"scenario": self.nonce, "lag": n, "after_marker": self.marker_n});
+            if let Err(e) = self.rt.block_on(api.set(LAG_KEY.into(), v.clone(), HARNESS_ID)) {
+                return inconclusive(format!("lag probe write refused by the leader: {e}"));
+            }
+            let started = Instant::now();
+            let seen = self.rt.block_on(async {
+                loop {
+                    if let Ok(x) = rapi.get(LAG_KEY.into()).await {
+                        if x == v {
+                            return true;
+                        }
+                    }
+                    if started.elapsed() > WATCHDOG {
+                        return false;
+                    }
+                    tokio::time::sleep(Duration::from_millis(1)).await;
+                }
+            });
+            if !seen {
+                return inconclusive(format!("follower {reference} did not receive lag probe {n} either"));
+            }
+        }
+        // the follower that is behind must still be a running follower that answers and still lacks the marker
+        let alive = self.followers[behind].as_mut().map(|f| f.server.try_finished().is_none()).unwrap_or(false);
+        let still_missing = self.rt.block_on(async {
+            match bapi.get(MARKER_KEY.into()).await {
+                Ok(v) => Some(v != *marker),
+                Err(e) => (res::<()>(Err(e)).err() == Some(model::E_NO_SUCH_VALUE)).then_some(true),
+            }
+        });
+        let lag_seen = self.rt.block_on(async { bapi.get(LAG_KEY.into()).await.ok() });
+        match (alive, still_missing, lag_seen) {
+            (true, Some(true), None) => Verdict::Violation {
+                signature: format!("{}: a running follower is not sent the leader's writes while another follower of the same leader receives them", self.property),
+                detail: json!({"follower_behind": behind, "reference_follower": reference,
+                    "observed": format!("marker {marker} not on follower {behind} after {WATCHDOG:?}; then {LAG_STEPS} further writes, each awaited on follower {reference}, all arrived there and none on follower {behind}, which still runs and answers"),
+                    "history": self.executed}),
+            },
+            _ => inconclusive(format!("follower {behind} alive={alive} marker_missing={still_missing:?} (it ended or caught up during the lag probe)")),
+        }
+    }
+
     fn check(&mut self) -> Verdict {
         if !self.any_joined() {
             return Verdict::Held;
@@ -1123,7 +1185,7 @@ impl<'a> Exec<'a> {
             self.stats.markers_awaited += 1;
             match seen {
                 Ok(true) => {}
-                Ok(false) => return Verdict::Inconclusive(format!("watchdog: marker not seen on follower {i} within {WATCHDOG:?}")),
+                Ok(false) => return self.lag_probe(i, &api, &marker),
                 Err(e) => {
                     let fin = f.server.try_finished();
                     let panics = crate::core::take_all_panics();
